@@ -308,6 +308,20 @@ var libFrame = regexp.MustCompile(`/(snaps|match|internal/[a-z]+)/[a-zA-Z_]+\.go
 
 func (st *wstate) runLifetime(i int, l *scen.Lifetime) {
 	out := st.out
+	if l.PreDelete > 0 {
+		var solos []string
+		for p, s := range st.d.Solo {
+			if !s.Dirty {
+				solos = append(solos, p)
+			}
+		}
+		sort.Strings(solos)
+		if len(solos) > 0 {
+			p := solos[l.PreDelete%len(solos)]
+			os.Remove(st.root + p)
+			delete(st.d.Solo, p)
+		}
+	}
 	before, err := world.ReadDisk(st.root, skipDisk)
 	if err != nil {
 		out.Infra = err.Error()
@@ -618,14 +632,55 @@ func (st *wstate) runLifetime(i int, l *scen.Lifetime) {
 				cleanTouched[op.Path] = true
 			}
 		}
+		// a directory that Clean could not list is simply not examined: only the files in
+		// it stop being predicted, everything else is still demanded
+		onlyReaddir := true
+		badDirs := map[string]bool{}
+		for _, op := range rep.Ops {
+			if op.Seq > rep.CleanBegin && op.Fault {
+				if op.Kind == "readdir" {
+					badDirs[op.Path] = true
+				} else {
+					onlyReaddir = false
+				}
+			}
+		}
+		readdirOnly := onlyReaddir && len(badDirs) > 0
+		if readdirOnly {
+			for p, f := range st.d.Multi {
+				if badDirs[filepath.Dir(p)] {
+					f.Dirty = true
+				}
+			}
+			for p, s := range st.d.Solo {
+				if badDirs[filepath.Dir(p)] {
+					s.Dirty = true
+				}
+			}
+			for p := range st.d.Other {
+				if badDirs[filepath.Dir(p)] && strings.Contains(filepath.Base(p), ".snap") {
+					delete(st.d.Other, p)
+					st.d.Multi[p] = &model.MFile{Dirty: true}
+				}
+			}
+		}
 		plan = lf.PlanClean(st.d, rep.Ran, rep.SkipCalls)
-		if st.checkClean(i, l, lf, rep, plan, anyFault, cleanTouched) {
+		if st.checkClean(i, l, lf, rep, plan, anyFault, cleanTouched, readdirOnly) {
 			return
 		}
 		for _, op := range rep.Ops {
+			if readdirOnly {
+				break
+			}
 			if op.Seq > rep.CleanBegin && op.Fault {
 				// a fault hit Clean itself: what it did to the snapshot files is not predicted
 				st.d.MarkAllDirty()
+				for p := range st.d.Other {
+					if strings.Contains(filepath.Base(p), ".snap") {
+						delete(st.d.Other, p) // a stale .snap file may or may not have been removed
+						st.d.Multi[p] = &model.MFile{Dirty: true}
+					}
+				}
 				plan = nil
 				break
 			}
